@@ -141,7 +141,17 @@ fn main() {
     };
     let threads = arg(&args, "--threads").map(|x| x as usize);
     let ops = arg(&args, "--ops").map(|x| x as usize);
-    let pct = arg(&args, "--pct").map(|x| x as usize);
+    // swarm: two executions in three use the uniform random scheduler, the third PCT with a
+    // priority-change depth of 1..3 (few, well-placed preemptions); `--pct D` forces PCT
+    let pct = arg(&args, "--pct").map(|x| x as usize).or_else(|| {
+        let r = prng::splitmix64(seed ^ 0x9c7);
+        if r % 3 == 0 {
+            Some(1 + (r >> 8) as usize % 3)
+        } else {
+            None
+        }
+    });
+    c14::miri_scenario::MAX_THREADS.store(6, Ordering::Relaxed);
     // HashMap keys of every thread of this process come from the run seed
     entropy::set(prng::splitmix64(seed ^ 0x5e7));
 
